@@ -23,20 +23,24 @@ TRANSFORMS = [("shift", 3 * U, True), ("shift", -(2.5 * U + T0), True), ("shift"
               ("scale", 2.0 ** -8, True), ("reflect", None, False)]
 
 
+TRANSFORMS_Q = [TRANSFORMS[1], TRANSFORMS[2], TRANSFORMS[3], TRANSFORMS[5], TRANSFORMS[7]]
+
+
 def plan(tier):
+    tf = TRANSFORMS_Q if tier == "quick" else TRANSFORMS
     if tier == "quick":
         specs = [(2, [("dense", 1, 5)], CONF_Q), (3, [("dense", 1, 3)], CONF_Q[::2] + CONF_Q[8:9]),
-                 (2, [("near", 2, 3)], CONF_Q[::2])]
+                 (2, [("near", 2, 3)], CONF_Q[::2]), (3, [("near", 2, 2)], CONF_Q[4:8])]
     else:
         specs = [(2, [("dense", 1, 7), ("bounded", 3, 8, 10)], CONF_T), (3, [("dense", 1, 4)], CONF_Q),
-                 (2, [("near", 2, 4)], CONF_Q)]
+                 (2, [("near", 2, 4)], CONF_Q), (3, [("near", 2, 3)], CONF_Q[4:8])]
     tasks, descs = [], []
     for N, regimes, conf in specs:
-        tasks += pairs.regime_tasks(N, regimes, ["py", "pyx"], extra={"conf": conf})
+        tasks += pairs.regime_tasks(N, regimes, ["py", "pyx"], extra={"conf": conf, "tf": tf})
         d, _ = pairs.describe_regimes(regimes, N)
         for x in d:
             x["measure_configurations"] = conf
-            x["transformations"] = TRANSFORMS
+            x["transformations"] = tf
         descs += d
     return {
         "tasks": tasks,
@@ -88,6 +92,23 @@ def evaluate(r, trains, edges, name, kw, transforms, be, rank=()):
                     "%s: %s" % (type(e).__name__, e), "measure raised on valid input", rank)
         return
     arrs = [k for k in ("y", "y1", "y2", "mp") if k in o]
+    # averaging sub-intervals whose ends sit on lattice points (hence possibly on spikes)
+    T = te - ts
+    nU = int(round(T / U)) if T / U > 0.99 else 0
+    ivs = []
+    if name != "order" and nU >= 2:
+        ivs.append([ts, ts + (nU // 2) * U])
+        if nU >= 3:
+            ivs.append([ts + U, te - U])
+    dist = {"isi": spk.isi_distance, "spike": spk.spike_distance, "sync": spk.spike_sync}.get(name)
+    args0 = sts if len(sts) == 2 else [sts]
+    try:
+        base_iv = [float(dist(*args0, interval=iv, **kw)) for iv in ivs]
+    except Exception as e:
+        r.violation(ID, "exception", be, "exception.interval/%s/%s/%s" % (name, be, cls), case,
+                    "results", "%s: %s" % (type(e).__name__, e),
+                    "measure with interval raised on valid input", rank)
+        return
     for kind, par, exact in transforms:
         r.evaluations += 1
         exact = exact and not isinstance(kw.get("MRTS"), str)
@@ -143,6 +164,21 @@ def evaluate(r, trains, edges, name, kw, transforms, be, rank=()):
             else:
                 ok = ok and all(_cmp(t[k], exp[k], False) for k in arrs)
             ok = ok and abs(t["v"] - exp["v"]) <= TOL
+        if ok and ivs:
+            sts2 = [spk.SpikeTrain(x, ed2) for x in tr2]
+            args2 = sts2 if len(sts2) == 2 else [sts2]
+            for iv, v0 in zip(ivs, base_iv):
+                iv2 = sorted([f(iv[0]), f(iv[1])])
+                try:
+                    v2 = float(dist(*args2, interval=iv2, **kw2))
+                except Exception as e:
+                    v2 = float("nan")
+                if not abs(v2 - v0) <= TOL:
+                    ok = False
+                    exp = {"interval": iv, "value": v0}
+                    t = dict(t, x=np.asarray(iv2), v=v2)
+                    arrs_show = []
+                    break
         if not ok:
             r.violation(ID, kind, be, "%s/%s/%s/%s" % (kind, name, be, cls), c2,
                         {k: exp[k] for k in exp}, {k: t[k] for k in ["x"] + arrs + ["v"]},
@@ -155,7 +191,8 @@ def check_state(r, k, masks, task):
     trains, edges = pairs.trains_edges(k, masks)
     ns = pairs.nspikes(masks)
     for ci, (name, kw) in enumerate(task["conf"]):
-        evaluate(r, trains, edges, name, kw, TRANSFORMS, task["backend"], (k, ns, ci))
+        evaluate(r, trains, edges, name, kw, [tuple(t) for t in task.get("tf", TRANSFORMS)],
+                 task["backend"], (k, ns, ci))
     if r.states % 997 == 1:
         r.sample({"trains": trains, "edges": edges})
 
